@@ -212,7 +212,9 @@ fn gen_double(r: &mut Rng) -> u64 {
         0 => 0f64.to_bits(),
         1 => (-0f64).to_bits(),
         2 => f64::INFINITY.to_bits(),
-        3 => f64::NAN.to_bits(),
+        // NaN only rarely: generated types compare with `==`, under which a value holding NaN says nothing
+        3 if r.chance(1, 6) => f64::NAN.to_bits(),
+        3 => (-1e300f64).to_bits(),
         4 => 1.5f64.to_bits(),
         5 => f64::MIN_POSITIVE.to_bits(),
         _ => r.next(),
@@ -246,7 +248,10 @@ impl<'a> GenCtx<'a> {
             T_I32 => TV::I32(gen_i64_class(self.r, 32) as i32),
             T_I64 => TV::I64(gen_i64_class(self.r, 64)),
             T_DOUBLE => TV::Double(gen_double(self.r)),
-            T_BINARY => TV::Binary(gen_str(self.r, &self.k.clone(), self.r.clone().chance(1, 2))),
+            T_BINARY => {
+                let utf8 = self.r.chance(1, 2);
+                TV::Binary(gen_str(self.r, &self.k.clone(), utf8))
+            }
             T_UUID => {
                 let b = self.r.bytes(16);
                 let mut u = [0u8; 16];
